@@ -1,0 +1,10 @@
+//go:build verif
+
+// Contracts for govc (see /verif/DESIGN.md). Comment-only: no executable code with or without the tag.
+
+package geoip
+
+// Frame of the GeoIP database constructor (opens files, builds a fresh object).
+//@ func New(conf *DBConfig) (Database, error)
+//@   assigns nothing
+//@   trusted
